@@ -495,6 +495,22 @@ def main():
                 if missing:
                     undecided.append('%s: vacuous contract - canary assert(false) verified in %s' % (u, sorted(missing)))
 
+    # thorough tier: proof stability - every unit is verified again under two other SMT random seeds.  Reported in the
+    # evidence only (an obligation that needs a lucky seed is a maintenance risk, not a statement about the code)
+    stability = None
+    if tier == 'thorough' and not undecided and not any(r.failures for r in results):
+        stability = {'seeds': [1, 7, 42], 'units': {}}
+        for u in cfg.get('units', []):
+            path = os.path.join(bdir(a.repo, 'gen'), u + '.rs')
+            extract_out, _info = extract.build(u, a.repo)
+            open(path, 'w').write(extract_out.text())
+            okc = 0
+            for sd in (7, 42):
+                _cmd, _rc, _diags, _other, js2, _wall = run_verus(os.path.relpath(path, VERIF), extra=('--smt-option', 'smt.random_seed=%d' % sd, '--smt-option', 'sat.random_seed=%d' % sd))
+                if js2 and js2.get('verification-results', {}).get('errors', 1) == 0:
+                    okc += 1
+            stability['units'][u] = 'all obligations discharged under every seed' if okc == 2 else 'UNSTABLE: %d of 2 extra seeds verified' % okc
+
     # Kani part
     kani_res = None
     kcfg = cfg.get('kani', {})
@@ -714,6 +730,7 @@ def main():
             'solver_time_s': {k: v for k, v in sorted(solver.items(), key=lambda kv: -kv[1])[:25]},
             'rewrites': rewrites,
             'canaries': {'expected_to_fail': canary_total, 'failed_as_required': canary_failed_as_required},
+            'proof_stability': stability,
             'bounded': (kani_res or {}).get('bounded', []) + bounded_runs,
             'not_covered_clauses': cfg.get('not_covered', []),
             'undecided': undecided,
